@@ -2,7 +2,7 @@
 (* Trace validation for C08 (civil arithmetic), C10 (rounding of          *)
 (* Timestamp / Time / DateTime / SignedDuration / Offset) and C07         *)
 (* (differences of civil types and timestamps).                            *)
-EXTENDS CivilArith, Round, TLC, Json, IOUtils
+EXTENDS CivilOps, TLC, Json, IOUtils
 
 Rec == ndJsonDeserialize(IOEnv.TRACE)
 VARIABLE l
@@ -15,8 +15,6 @@ ResIs(x, exp) == x = exp        \* exp = <<>> means "must be an error"
 IsSeq(x) == x # <<>> /\ x # <<-1>> /\ x # <<-2>>
 
 DateFieldsOfDay(n) == DateOfEpochDay(n)
-SodOf(t) == t[1] * 3600 + t[2] * 60 + t[3]       \* <<h, mi, s, ns>>
-TimeFields(sod, ns) == <<sod \div 3600, (sod % 3600) \div 60, sod % 60, ns>>
 
 \* ---- C08: Date + span ------------------------------------------------------------
 DateExp(r, sp) ==
@@ -93,14 +91,6 @@ TimeAddWhy(r) ==
            THEN "Time::saturating_add(span)"
       ELSE ""
 
-\* ---- C08: series: item k = start + k * period, ending at the first overflow --------------
-SpanScale(sp, k) ==
-  [y |-> sp.y * k, mo |-> sp.mo * k, w |-> sp.w * k, d |-> sp.d * k, h |-> sp.h * k,
-   mi |-> BMulSmall(sp.mi, k), s |-> BMulSmall(sp.s, k), ms |-> BMulSmall(sp.ms, k),
-   us |-> BMulSmall(sp.us, k), ns |-> BMulSmall(sp.ns, k)]
-\* scaling by k <= 6 keeps native units below 2^31 only when they are
-\* below 3*10^8: larger periods are checked for the first two items only
-ScaleOk(sp, k) == \A v \in {sp.y, sp.mo, sp.w, sp.d, sp.h} : v * k < 300000000 /\ v * k > -300000000
 SeriesWhy(r) ==
   IF r.st # "ok" THEN "panic in series"
   ELSE LET c == CivOfFields(r.civil) IN
@@ -120,29 +110,7 @@ SeriesWhy(r) ==
     THEN "Date::series item"
     ELSE ""
 
-\* ---- C10: rounding ------------------------------------------------------------------------
-UnitNs(u) == CASE u = "ns" -> BOf(1) [] u = "us" -> B1E3 [] u = "ms" -> B1E6 [] u = "s" -> BPow10_9
-               [] u = "mi" -> B60E9 [] u = "h" -> B3600E9 [] u = "d" -> BDayNs
-UnitRank(u) == CASE u = "ns" -> 0 [] u = "us" -> 1 [] u = "ms" -> 2 [] u = "s" -> 3 [] u = "mi" -> 4
-                 [] u = "h" -> 5 [] u = "d" -> 6 [] u = "w" -> 7 [] u = "mo" -> 8 [] u = "y" -> 9
-NextUnitCount(u) == CASE u = "ns" -> 1000 [] u = "us" -> 1000 [] u = "ms" -> 1000 [] u = "s" -> 60
-                      [] u = "mi" -> 60 [] u = "h" -> 24 [] u = "d" -> 2
-\* increments for Time / DateTime / SignedDuration: positive, less than the
-\* number of units in the next larger unit, and dividing it
-SmallIncOk(u, k) ==
-  /\ BFitsInt(k) /\ k.s = 1
-  /\ LET n == BToInt(k) IN n < NextUnitCount(u) /\ NextUnitCount(u) % n = 0
 
-\* The harness sends mf = floor(x / inc) computed from the INPUT.  The two
-\* neighbouring multiples are R0 = mf * inc <= x < R1 = R0 + inc (checked
-\* here by multiplication); the correct rounding is whichever of them
-\* satisfies RoundOk (Round.tla shows it is unique).  <<ok, R, m>>
-Target(mode, x, inc, mf) ==
-  LET R0 == BMul(mf, inc)  R1 == BAdd(R0, inc)  m1 == BAdd(mf, BOf(1)) IN
-  IF ~(BLe(R0, x) /\ BLt(x, R1)) THEN <<0, BZero, BZero>>
-  ELSE IF RoundOk(mode, x, inc, R0, mf) THEN <<1, R0, mf>>
-  ELSE IF RoundOk(mode, x, inc, R1, m1) THEN <<1, R1, m1>>
-  ELSE <<0, BZero, BZero>>
 
 RoundTimeWhy(r) ==
   LET legal == UnitRank(r.unit) <= 5 /\ SmallIncOk(r.unit, r.k) IN
@@ -175,9 +143,6 @@ RoundDtWhy(r) ==
            ELSE IF r.res # FieldsOf(exp) THEN "DateTime::round value"
            ELSE ""
 
-\* Timestamp: increment * unit must divide 24 hours (witness: dq * k + dr = units per day)
-UnitsPerDay(u) == CASE u = "ns" -> BDayNs [] u = "us" -> BMul(BOf(86400), B1E6) [] u = "ms" -> BOf(86400000)
-                    [] u = "s" -> BOf(86400) [] u = "mi" -> BOf(1440) [] u = "h" -> BOf(24)
 RoundTsWhy(r) ==
   LET unitOk == UnitRank(r.unit) <= 5
       kpos == r.k.s = 1
@@ -200,11 +165,6 @@ RoundTsWhy(r) ==
            ELSE IF BNanosOfApi(r.rsec, r.rns) # tg[2] THEN "Timestamp::round value"
            ELSE ""
 
-I64Max == [s |-> 1, m |-> <<5807, 5477, 368, 3372, 922>>]     \* 9223372036854775807
-I64Min == BSub(BNeg(I64Max), BOf(1))
-\* SignedDuration: documented like Time (increment divides the next unit);
-\* hours have no next unit inside a duration: any positive increment
-SdIncOk(u, k) == UnitRank(u) <= 5 /\ k.s = 1 /\ (u = "h" \/ SmallIncOk(u, k))
 RoundSdWhy(r) ==
   IF UnitRank(r.unit) > 5 THEN (IF r.st = "err" THEN "" ELSE "SignedDuration::round accepted a calendar unit")
   ELSE IF r.k.s # 1 THEN (IF r.st = "err" THEN "" ELSE "SignedDuration::round accepted a non-positive increment")
@@ -239,6 +199,90 @@ RoundOffWhy(r) ==
            ELSE IF BOf(r.res) # sn[1] THEN "Offset::round value"
            ELSE ""
 
+SpanEq(a, b) == a = b
+
+
+
+
+SpanOfRec(x) == x     \* the JSON span record has exactly the spec's shape
+
+DurWhy(r, T) ==   \* duration_until must be the exact nanosecond distance
+  IF <<r.dsec, r.dns>> # BDivTruncE9(T) THEN "duration_until is not the exact distance" ELSE ""
+
+\* since = negation of until (same largest unit)
+SinceWhy(r) == IF r.st = "ok" /\ r.sst = "ok" /\ r.since # SpanNeg(r.span) THEN "since is not the negation of until"
+               ELSE IF r.st # r.sst THEN "since and until disagree on failure" ELSE ""
+
+UntilDateWhy(r) ==
+  LET L == LargestRank(r.largest) IN
+  IF L < 6 THEN (IF r.st # "panic" THEN "" ELSE "Date::until panicked")   \* not a permitted largest unit: out of scope
+  ELSE LET e == DateDiff(r.a, r.b, L)
+           exp == [SpanZero EXCEPT !.y = e[1], !.mo = e[2], !.w = e[3], !.d = e[4]]
+       IN
+  \* a difference that does not fit the Span unit limits (Date::MIN -> MAX in months) is an error
+  IF ~SpanInLimits(exp) THEN (IF r.st = "err" THEN "" ELSE "Date::until returned a span beyond the unit limits")
+  ELSE IF r.st # "ok" THEN "Date::until failed"
+  ELSE LET back == DateAddSpan(r.a[1], r.a[2], r.a[3], r.span)
+           T == BMul(BOf(EpochDayOf(r.b[1], r.b[2], r.b[3]) - EpochDayOf(r.a[1], r.a[2], r.a[3])), BDayNs)
+       IN  IF back = <<>> \/ (back # <<>> /\ back[1] # EpochDayOf(r.b[1], r.b[2], r.b[3])) THEN "a + (a until b) # b"
+           ELSE IF r.span # exp THEN "Date::until is not the balanced difference"
+           ELSE IF SinceWhy(r) # "" THEN SinceWhy(r)
+           ELSE DurWhy(r, T)
+
+UntilTimeWhy(r) ==
+  LET L == LargestRank(r.largest) IN
+  IF L > 5 THEN (IF r.st # "panic" THEN "" ELSE "Time::until panicked")
+  ELSE IF r.st # "ok" THEN "Time::until failed"
+  ELSE LET T == BSub(TodNs(SodOf(r.b), r.b[4]), TodNs(SodOf(r.a), r.a[4]))
+           exp == ExpTimeSpan(T, L)
+       IN  IF r.span # exp THEN "Time::until is not the balanced exact difference"
+           ELSE IF SinceWhy(r) # "" THEN SinceWhy(r)
+           ELSE DurWhy(r, T)
+
+UntilTsWhy(r) ==
+  LET L == LargestRank(r.largest) IN
+  IF L > 5 THEN (IF r.st # "panic" THEN "" ELSE "Timestamp::until panicked")
+  ELSE LET T == BSub(BNanosOfApi(r.bsec, r.bns), BNanosOfApi(r.asec, r.ans))
+           exp == ExpTimeSpan(T, L)
+       IN  IF ~SpanInLimits(exp) THEN (IF r.st = "err" THEN "" ELSE "Timestamp::until returned a span beyond the unit limits")
+           ELSE IF r.st # "ok" THEN "Timestamp::until failed"
+           ELSE IF r.span # exp THEN "Timestamp::until is not the balanced exact difference"
+           ELSE IF SinceWhy(r) # "" THEN SinceWhy(r)
+           ELSE DurWhy(r, T)
+
+UntilDtWhy(r) ==
+  LET L == LargestRank(r.largest)
+      ca == CivOfFields(r.a)  cb == CivOfFields(r.b)
+      T == BAdd(BMul(BOf(cb[1] - ca[1]), BDayNs), BSub(TodNs(cb[2], cb[3]), TodNs(ca[2], ca[3])))
+  IN
+  IF L <= 5
+  THEN LET exp == ExpTimeSpan(T, L) IN
+       IF ~HoursFit(T, L) \/ ~SpanInLimits(exp)
+       THEN (IF r.st = "err" THEN "" ELSE "DateTime::until returned a span beyond the unit limits")
+       ELSE IF r.st # "ok" THEN "DateTime::until failed"
+       ELSE IF r.span # exp THEN "DateTime::until is not the balanced exact difference"
+       ELSE IF SinceWhy(r) # "" THEN SinceWhy(r)
+       ELSE DurWhy(r, T)
+  ELSE LET sign == T.s
+           todA == <<ca[2], ca[3]>>  todB == <<cb[2], cb[3]>>
+           todLt(p, q) == p[1] < q[1] \/ (p[1] = q[1] /\ p[2] < q[2])
+           \* the day of the intermediate datetime X = <<dayX, tod(a)>> with
+           \* X + time part = b, |time part| < 24h, of the overall sign
+           dayX == IF sign > 0 THEN (IF todLt(todB, todA) THEN cb[1] - 1 ELSE cb[1])
+                   ELSE IF sign < 0 THEN (IF todLt(todA, todB) THEN cb[1] + 1 ELSE cb[1])
+                   ELSE cb[1]
+           Tt == BSub(T, BMul(BOf(dayX - ca[1]), BDayNs))
+           e == DateDiff(DateOfEpochDay(ca[1]), DateOfEpochDay(dayX), L)
+           tp == ExpTimeSpan(Tt, 5)
+           exp == [tp EXCEPT !.y = e[1], !.mo = e[2], !.w = e[3], !.d = e[4]]
+           back == DateTimeAddSpan(ca, r.span)
+       IN  IF ~SpanInLimits(exp) THEN (IF r.st = "err" THEN "" ELSE "DateTime::until returned a span beyond the unit limits")
+           ELSE IF r.st # "ok" THEN "DateTime::until failed"
+           ELSE IF back # cb THEN "a + (a until b) # b"
+           ELSE IF r.span # exp THEN "DateTime::until is not the balanced difference"
+           ELSE IF SinceWhy(r) # "" THEN SinceWhy(r)
+           ELSE DurWhy(r, T)
+
 Why(r) ==
   CASE r.op = "date_add"   -> DateAddWhy(r)
     [] r.op = "dt_add"     -> DtAddWhy(r)
@@ -250,6 +294,10 @@ Why(r) ==
     [] r.op = "round_ts"   -> RoundTsWhy(r)
     [] r.op = "round_sd"   -> RoundSdWhy(r)
     [] r.op = "round_off"  -> RoundOffWhy(r)
+    [] r.op = "until_date" -> UntilDateWhy(r)
+    [] r.op = "until_time" -> UntilTimeWhy(r)
+    [] r.op = "until_ts"   -> UntilTsWhy(r)
+    [] r.op = "until_dt"   -> UntilDtWhy(r)
     [] OTHER               -> "unknown op"
 
 Init == l = 1
